@@ -55,7 +55,7 @@ def run(ctx, rep):
                     return True
         return False
     ok_mut = [m for m in muts if m[1]['f'] == 'retain' and m[1].get('args') and keeps_non_typeshare(m[1]['args'][0])
-              and not [fr for fr in m[1].get('guard', []) if fr.get('k') in ('if', 'arm')]]
+              and not [fr for fr in m[1].get('guard', []) if fr.get('k') in ('if', 'arm') and not fr.get('let_else_rest')]]   # "the input parsed" (let-else) is Y2's exit inventory, not a condition on the stripping
     for f, c in muts:
         if any(f is f2 and c is c2 for f2, c2 in ok_mut):
             continue
